@@ -722,6 +722,14 @@ def bad_arity_stream(ctx, world):
                     ok = False
             else:
                 ok = lean == w.split(" ")[0]
+        elif o != w and o.startswith("ok ") and w.startswith("ok ") and \
+                ("set<" in name or "mapping<" in name):
+            # the order of set elements / mapping entries in the bytes is
+            # Python's iteration order: same length and same multiset of
+            # bytes is what is compared here (the exact conformance of
+            # unordered containers is the business of the main stream)
+            ok = len(o) == len(w) and sorted(
+                bytes.fromhex(o[3:])) == sorted(bytes.fromhex(w[3:]))
         else:
             ok = o == w
         if not ok:
